@@ -155,7 +155,8 @@ func (ir *ifdReader) readIfdHeader(ifd ifds.Ifd) (err error) {
 		return err
 	}
 
-	if ir.ifdLimit != 0 && 2+12*uint32(tagCount) > ir.ifdLimit {
+	// (the count, the entries and the link to the next directory behind them)
+	if ir.ifdLimit != 0 && 2+12*uint32(tagCount)+4 > ir.ifdLimit {
 		if ir.logLevelError() {
 			ir.logError(errIfdLimit).Object("ifd", ifd).Uint16("tagCount", tagCount).Send()
 		}
